@@ -164,6 +164,35 @@ theorem unauthenticated_refused (w : World) (id : ConnIdent) (req : Req) (ts : T
     have := proven_of_control hwf hf hA.cid_ne
     exact absurd (this ▸ h) hA.cid_ne
 
+/-- **Client id 0 is nobody, also for a mapping whose listen client is 0.**  A mapping the server itself listens
+on (HTTP-domain mappings made through the management API) has `ListenClientID = 0`; the translated
+`CanBeAccessedBy 0` is then TRUE for it.  The dispatcher must not lean on "0 matches no listen client": a control
+connection record without a client id (a tunnel-type handshake that failed or stopped at the challenge), a
+temporary one without an id, or no record at all is refused — whatever the mapping's listen client, whatever is
+presented, in every tunnel state. -/
+theorem zero_client_refused (w : World) (id : ConnIdent) (req : Req) (ts : TunnelState) (late : Late)
+    (h : ∀ cc, findControlConnection id = some cc → cc.clientID = 0) :
+    openTunnelDyn w id req ts late = refuse := by
+  by_cases hr : openTunnelDyn w id req ts late = refuse
+  · exact hr
+  · obtain ⟨cc, hf, ha, _⟩ := passed_of_not_refused_dyn hr
+    obtain ⟨m, hA⟩ := auth_sound ha
+    exact absurd (h cc hf) hA.cid_ne
+
+/-- For such a mapping the mapping-id clause entitles nobody (its listen client is not a client): whoever is
+entitled to it presented its secret as its listen or target client. -/
+theorem server_listened_needs_secret (w : World) (id : ConnIdent) (req : Req) (ts : TunnelState) (m : PortMapping)
+    (hm : w.getPortMapping (tunnelMappingID req ts) = some m) (hz : m.ListenClientID = 0)
+    (he : entitledB w id req ts = true) : req.SecretKey = m.SecretKey ∧ req.SecretKey ≠ "" ∧ provenClient id = m.TargetClientID := by
+  unfold entitledB at he
+  rw [hm] at he
+  simp only [Bool.and_eq_true, Bool.or_eq_true, bne_iff_ne, ne_eq, beq_iff_eq, hz] at he
+  obtain ⟨hp, _, hc⟩ := he
+  rcases hc with ⟨_, h0⟩ | ⟨⟨hs, hk⟩, h0 | ht⟩
+  · exact absurd h0 hp
+  · exact absurd h0 hp
+  · exact ⟨hk, hs, ht⟩
+
 /-- Credentials for one mapping never open a tunnel of another mapping. -/
 theorem other_mapping_refused (w : World) (id : ConnIdent) (req : Req) (m : String) (sv : Bool) (n : String)
     (h : m ≠ req.MappingID) :
@@ -414,5 +443,24 @@ example : openTunnelDyn wTwo listenClient midReq .none .noRouting = ⟨.ok, .sou
 -- the node holding the bridge cannot be reached: acknowledged, then nothing
 example : openTunnel { wTwo with unreachable := ["node-B"] } targetClient secretReq (.remote "M" "node-B") = ⟨.ok, .none, .err⟩ := by
   decide
+
+/-! ### a mapping the server itself listens on (listen client 0) -/
+
+def wZero : World :=
+  { mappings := [⟨"Z", 0, 22, "s3cretZ", "active", false, none⟩], now := 1000, nodeID := "node-A" }
+def halfOpen : ConnIdent := ⟨true, 0, false, false, 0⟩     -- handshake refused: a record with client id 0
+def zidReq : Req := ⟨true, "Z", "verif-tunnel-01", "", ""⟩
+def zsecReq : Req := ⟨true, "Z", "verif-tunnel-01", "s3cretZ", ""⟩
+
+-- the translated predicate does say yes to client 0 here …
+example : Gen.models.PortMapping.CanBeAccessedBy 1000 ⟨"Z", 0, 22, "s3cretZ", "active", false, none⟩ 0 = true := by decide
+-- … the dispatcher does not
+example : openTunnel wZero halfOpen zidReq .none = refuse := by decide
+example : openTunnel wZero halfOpen zidReq (.bridge "Z" false) = refuse := by decide
+example : openTunnel wZero nobody zidReq .none = refuse := by decide
+-- what `holds` rejects: the observation made when the client-id guard is skipped on the mapping-id path
+example : holds wZero halfOpen zidReq .none ⟨.ok, .source, false⟩ = false := by decide
+-- the target client with the secret is still served
+example : openTunnel wZero targetClient zsecReq (.remote "Z" "node-B") = ⟨.ok, .forward "node-B", .switch⟩ := by decide
 
 end Tunnox.C04
